@@ -225,6 +225,37 @@ def _helper_worker(payload):
     return res
 
 
+def check_equality(parts):
+    from sqllineage.core.models import Column, Schema, Table
+
+    a, b, sa, sb, ca, cb = [tuple(p) for p in parts]
+
+    def mk(p):
+        return spell(*p)[0]
+
+    try:
+        s1, s2 = Schema(mk(sa)), Schema(mk(sb))
+        t1, t2 = Table(mk(a), s1), Table(mk(b), s2)
+        t3 = Table(mk(sa) + "." + mk(a))
+        c1, c2 = Column(mk(ca)), Column(mk(cb), source_columns=[("x", None), ("y", "q")])
+        c1.parent, c2.parent = t1, t2
+        objs = [(s1, s2), (t1, t2), (c1, c2), (t1, t3)]
+        # a dotted name splits at its LAST dot: db.schema.table -> qualifier db.schema, table
+        t4 = Table("dbx." + mk(sa) + "." + mk(a))
+    except Exception as e:  # noqa
+        return {"what": "construction raises", "exc": repr(e)}
+    if t4.raw_name != spell(*a)[1] and spell(*sa)[1] == str(s1):
+        return {"what": "dotted name not split at its last dot", "table": str(t4), "raw_name": t4.raw_name}
+    for x, y in objs:
+        if x == y and hash(x) != hash(y):
+            return {"what": "equal entities hash differently", "a": str(x), "b": str(y)}
+        if (str(x) == str(y)) != (x == y) and not isinstance(x, Column):
+            return {"what": "equality does not follow the printed qualified name", "a": str(x), "b": str(y)}
+    if str(t1) != str(t3) and spell(*sa)[1] == str(s1):
+        return {"what": "dotted name and (schema, name) construction differ", "a": str(t1), "b": str(t3)}
+    return None
+
+
 def _equality_worker(payload):
     shard, n, ctx = payload
     from hypothesis import strategies as st
@@ -236,28 +267,10 @@ def _equality_worker(payload):
         return spell(*p)[0]
 
     def body(case, res_):
-        from sqllineage.core.models import Column, Schema, Table
-
-        a, b, sa, sb, ca, cb = case
-        res_.case(("eq", str(case)), True, labels=["equality"], sample={"equality_case": [mk(a), mk(b), mk(sa), mk(sb), mk(ca), mk(cb)]})
-        objs = []
-        try:
-            s1, s2 = Schema(mk(sa)), Schema(mk(sb))
-            t1, t2 = Table(mk(a), s1), Table(mk(b), s2)
-            t3 = Table(mk(sa) + "." + mk(a))
-            c1, c2 = Column(mk(ca)), Column(mk(cb))
-            c1.parent, c2.parent = t1, t2
-            objs = [(s1, s2), (t1, t2), (c1, c2), (t1, t3)]
-        except Exception as e:  # noqa
-            return {"kind": "equality", "case": {"equality_case": str(case)}, "detail": {"what": "construction raises", "exc": repr(e)}}
-        for x, y in objs:
-            if x == y and hash(x) != hash(y):
-                return {"kind": "equality", "case": {"equality_case": str(case)}, "detail": {"what": "equal entities hash differently", "a": str(x), "b": str(y)}}
-            if (str(x) == str(y)) != (x == y) and not isinstance(x, Column):
-                return {"kind": "equality", "case": {"equality_case": str(case)}, "detail": {"what": "equality does not follow the printed qualified name", "a": str(x), "b": str(y)}}
-        if str(t1) != str(t3) and spell(*sa)[1] == str(s1):
-            return {"kind": "equality", "case": {"equality_case": str(case)}, "detail": {"what": "dotted name and (schema, name) construction differ", "a": str(t1), "b": str(t3)}}
-        return None
+        parts = [list(p) for p in case]
+        res_.case(("eq", str(case)), True, labels=["equality"], sample={"equality_case": parts})
+        d = check_equality(parts)
+        return None if d is None else {"kind": "equality", "case": {"equality_case": parts}, "detail": d}
 
     runner.hyp_run(st.tuples(part, part, part, part, part, part), body, res, seed=runner.derive_seed(ctx.seed, "C16eq", shard), max_examples=n, ctx=ctx)
     return res
@@ -271,7 +284,8 @@ def replay(case):
         got = escape_identifier_name(case["helper_input"])
         return None if exp is None or got == exp else {"kind": "helper", "case": case, "detail": {"expected": exp, "got": got}}
     if "equality_case" in case:
-        return None
+        d = check_equality(case["equality_case"])
+        return None if d is None else {"kind": "equality", "case": case, "detail": d}
     d = evaluate(case["sql"], case["dialect"], [(w, tuple(e) if w == "pair" else e) for w, e in case["checks"]])
     return None if d is None else {"kind": "replay", "case": case, "detail": d}
 
